@@ -34,6 +34,14 @@ uint16_t Memory::read16(uint32_t a) { return endian == 0 ? (read8(a) | (read8(a 
 uint32_t Memory::read32(uint32_t a) { return endian == 0 ? (read8(a) | (read8(a + 1) << 8) | (read8(a + 2) << 16) | (read8(a + 3) << 24)) : ((read8(a) << 24) | (read8(a + 1) << 16) | (read8(a + 2) << 8) | read8(a + 3)); }
 int Memory::read_debug(uint32_t a) { return nondet_int(); }
 
+#ifdef STRINGS_ABSTRACT
+/* string-abstract variant: the text is not modelled at all (every formatting call is a no-op that
+   leaves an empty string), only length / locality / table-index obligations are decided */
+extern "C" char *strcat(char *d, const char *s) { return d; }
+extern "C" char *strcpy(char *d, const char *s) { d[0] = 0; return d; }
+extern "C" int snprintf(char *d, size_t n, const char *f, ...) { d[0] = 0; return 0; }
+extern "C" int sprintf(char *d, const char *f, ...) { d[0] = 0; return 0; }
+#endif
 #define VSTR(x) #x
 #define VXSTR(x) VSTR(x)
 #define VCAT(a, b) a##b
@@ -55,14 +63,19 @@ extern "C" void h_dis()
   int flags = nondet_int();
   g_base = address; g_max_off = 0; g_outside = 0; g_sel = 0;
   int count = DISFN(&m, address, instruction, sizeof(instruction), flags, &cmin, &cmax);
+#ifndef VERIF_CBMC
+  printf("REPLAY-INFO: address=0x%x flags=0x%x endian=%d bytes=%02x %02x %02x %02x %02x %02x -> count=%d max_read_offset=%u outside=%d text='%s'\n", address, flags, m.endian, g_win[0], g_win[1], g_win[2], g_win[3], g_win[4], g_win[5], count, g_max_off, g_outside, instruction);
+#endif
   OBL(count >= UNIT && count <= MAXLEN && (count % UNIT) == 0, "C08.dis: length is at least one unit, at most the longest instruction, a multiple of the unit");
 #ifndef TWOSAFETY
   OBL(!g_outside && g_max_off < (unsigned)count, "C08.dis: reads only the bytes of the instruction it reports");
 #else
   OBL(!g_outside, "C08.dis: reads stay inside the 16-byte window");
 #endif
+#ifndef STRINGS_ABSTRACT
   int nul = 0; for (int i = 0; i < 128; i++) if (instruction[i] == 0) nul = 1;
   OBL(nul, "C08.dis: text is NUL terminated inside the caller's buffer");
+#endif
 #ifdef TWOSAFETY
   /* second run: same first count bytes, arbitrary bytes after */
   for (int i = 0; i < 16; i++) ASSUME(i >= count || g_win2[i] == g_win[i]);
